@@ -921,7 +921,7 @@ impl Property for C12 {
         C12 { selftest: selftest() }
     }
     fn n_cases(&self, tier: Tier) -> u64 {
-        tier.pick(50_000, 1_000_000)
+        tier.pick(200_000, 4_000_000)
     }
     fn chunk(&self, _tier: Tier) -> u64 {
         1000
